@@ -19,33 +19,39 @@ def ensure_scratch():
         assert rc == 0, out
     sh('git checkout -q --detach $(git -C /repo rev-parse HEAD) && git checkout -- . && git clean -fdq', cwd=SCRATCH)
 
-def pkgdir_of(d):
-    # from any overlay json in the dir: directory of the masked test files
-    for f in glob.glob(os.path.join(d, 'overlay*.json')):
-        keys = list(json.load(open(f))['Replace'].keys())
-        if keys:
-            m = re.match(r'/tmp/mut-g\d+/(.*)/[^/]+$', keys[0])
-            if m:
-                return m.group(1)
-    # from notes
-    notes = open(os.path.join(d, 'notes.md')).read() if os.path.exists(os.path.join(d, 'notes.md')) else ''
-    m = re.search(r'\./(pkg/[\w/]+)/', notes)
-    return m.group(1) if m else None
+PKGDIRS = {'local': 'pkg/blobstore/local', 'configuration': 'pkg/blobstore/configuration', 'buffer': 'pkg/blobstore/buffer',
+           'mirrored': 'pkg/blobstore/mirrored', 'sharding': 'pkg/blobstore/sharding', 'replication': 'pkg/blobstore/replication',
+           'completenesschecking': 'pkg/blobstore/completenesschecking', 'grpcservers': 'pkg/blobstore/grpcservers',
+           'readcaching': 'pkg/blobstore/readcaching', 'readfallback': 'pkg/blobstore/readfallback',
+           'blobstore': 'pkg/blobstore', 'auth': 'pkg/auth', 'digest': 'pkg/digest', 'util': 'pkg/util'}
 
-def run_demo(pkgdir):
-    full = os.path.join(SCRATCH, pkgdir)
-    repl = {}
-    for f in os.listdir(full):
-        if f.endswith('_test.go') and not f.startswith('zz_seeded'):
-            repl[os.path.join(full, f)] = ''
-    ov = '/tmp/seedcheck-overlay.json'
-    json.dump({'Replace': repl}, open(ov, 'w'))
-    return sh(f'go test -vet=off -count=1 -timeout 300s -overlay {ov} -run Seeded ./{pkgdir}/', cwd=SCRATCH)
+def pkgdir_of_file(f):
+    """Directory a demo file belongs to: from its package clause."""
+    m = re.search(r'^package (\w+)', open(f).read(), re.M)
+    name = m.group(1) if m else ''
+    if name.endswith('_test'):
+        name = name[:-5]
+    return PKGDIRS.get(name)
+
+def run_demos(pkgdirs):
+    rc, out = 0, ''
+    for pkgdir in sorted(pkgdirs):
+        full = os.path.join(SCRATCH, pkgdir)
+        repl = {}
+        for f in os.listdir(full):
+            if f.endswith('_test.go') and not f.startswith('zz_seeded'):
+                repl[os.path.join(full, f)] = ''
+        ov = '/tmp/seedcheck-overlay.json'
+        json.dump({'Replace': repl}, open(ov, 'w'))
+        r, o = sh(f'go test -vet=off -count=1 -timeout 300s -overlay {ov} -run Seeded ./{pkgdir}/', cwd=SCRATCH)
+        rc |= r
+        out += o
+    return rc, out
 
 def main():
     ensure_scratch()
     results = {}
-    dirs = sorted(glob.glob('/tmp/mutout-g*/C[0-9][0-9]-[0-9]'))
+    dirs = sorted(glob.glob('/tmp/mutout-[a-z]*/C[0-9][0-9]-[0-9]'))
     only = sys.argv[1:]
     for d in dirs:
         sid = os.path.basename(d)
@@ -55,9 +61,11 @@ def main():
         if os.path.exists(os.path.join(dest, 'meta.json')) and not only:
             continue
         sh('git checkout -- . && git clean -fdq', cwd=SCRATCH)
-        pkgdir = pkgdir_of(d)
         demos = glob.glob(os.path.join(d, 'zz_seeded*_test.go'))
-        if not pkgdir or not demos:
+        where = {f: pkgdir_of_file(f) for f in demos}
+        pkgdirs = set(where.values())
+        pkgdir = ', '.join(sorted(x for x in pkgdirs if x))
+        if not demos or None in pkgdirs:
             results[sid] = 'no pkgdir/demo'
             continue
         rc, out = sh(f'git apply --check {d}/patch.diff', cwd=SCRATCH)
@@ -65,11 +73,11 @@ def main():
             results[sid] = 'patch does not apply: ' + out[-200:]
             continue
         for f in demos:
-            shutil.copy(f, os.path.join(SCRATCH, pkgdir))
-        rc0, out0 = run_demo(pkgdir)
+            shutil.copy(f, os.path.join(SCRATCH, where[f]))
+        rc0, out0 = run_demos(pkgdirs)
         sh(f'git apply {d}/patch.diff', cwd=SCRATCH)
         rcb, outb = sh('go build ./pkg/...', cwd=SCRATCH)
-        rc1, out1 = run_demo(pkgdir)
+        rc1, out1 = run_demos(pkgdirs)
         ok = rc0 == 0 and rc1 != 0 and rcb == 0
         results[sid] = f'unchanged={"pass" if rc0 == 0 else "FAIL"} patched={"fail" if rc1 != 0 else "PASS"} build={"ok" if rcb == 0 else "BROKEN"}'
         if ok:
@@ -83,7 +91,7 @@ def main():
             meta = {
                 'id': sid, 'property': sid.split('-')[0],
                 'origin': 'fresh sub-agent given only the property text and a scratch worktree of /repo',
-                'demo_package': pkgdir, 'demo_files': [os.path.basename(f) for f in demos],
+                'demo_package': pkgdir, 'demo_files': {os.path.basename(f): where[f] for f in demos},
                 'demo_command': f'copy the demo file(s) into {pkgdir}/ and run: go test -vet=off -count=1 -overlay <json blanking the other *_test.go of the package> -run Seeded ./{pkgdir}/',
                 'needs_to_manifest': notes[:1500],
                 'confirmed': {'scratch_worktree': SCRATCH, 'repo_head': subprocess.check_output(['git', '-C', '/repo', 'rev-parse', '--short', 'HEAD']).decode().strip(),
